@@ -27,6 +27,7 @@ inductive Obs (κ ν : Type) where
   | enq (k : κ) (t : Int) (v : ν) (id : Nat) (first : Bool) (out : POut)
   | deq (k : κ) (first : Bool) (out : POut)
   | adv (t : Int)
+  | newtimer (dur created : Int)
   | peeked (id : Option Nat)
   | popped (id : Nat)
   | stale (id : Nat)
@@ -46,7 +47,7 @@ def hiddenLabels (frozen : Bool) : List (Label κ ν) :=
     [.pollStop, .pollReset, .pollNone, .decide, .timerFire, .recvReset, .recvStop, .release])
 
 /-- The simulation works on states without their ghost history. -/
-def strip (s : State κ ν) : State κ ν := { s with log := [] }
+def strip (s : State κ ν) : State κ ν := { s with log := [], readAt := 0, armAt := 0 }
 
 def dedup (xs : List (State κ ν)) : List (State κ ν) :=
   xs.foldl (fun acc x => if acc.contains x then acc else acc ++ [x]) []
@@ -84,6 +85,7 @@ def parkOK (cfg : Cfg) (p : String) (id : Option Nat) (pc : Pc κ ν) : Bool :=
   | "loop.sawEmpty", .absent => cfg.fixed
   | "loop.sawEmpty", .exiting => !cfg.fixed
   | "loop.beforeArm", .polled r => idOk r
+  | "loop.beforeTimer", .arming r => idOk r
   | "loop.parked", .armed r => idOk r
   | "loop.fired", .firing r => idOk r
   | "loop.reset", .top => true
@@ -105,6 +107,10 @@ def evCands (cfg : Cfg) (e : Obs κ ν) (s : State κ ν) : List (Option (Label 
   | .deq k first out =>
     if outOf s.token s.reset first true = out then [some (.dequeue k first)] else []
   | .adv t => [some (.advance t)]
+  | .newtimer dur created =>
+    match s.pc with
+    | .arming _ => if s.timer = dur ∧ s.now = created then [some .arm] else []
+    | _ => []
   | .peeked (some id) => (s.q.filter (fun r => r.id = id)).map fun r => some (.peek (some r))
   | .peeked none => [some (.peek none)]
   | .popped id =>
